@@ -56,6 +56,52 @@ def one(cat, rng, stack):
     return b.s
 
 
+def coded_one(cat, rng):
+    """coded (Huffman) compositions in their *encoded* state: both sides of clone_from are merged regions with
+    different histories; every value comes from a pool covered by the statistics"""
+    b = RB(ID, cat, rng)
+    b.idx_cmp = "idx"
+    pool = [b.value() for _ in range(2 + rng.below(4))]
+    b.new("r")
+    for v in pool:
+        b.push("r", v, b.form_for(v))
+    b.merge("s", ["r"])
+    for _ in range(rng.below(6)):
+        v = rng.pick(pool)
+        b.push("s", v, b.form_for(v))
+    use_from = rng.below(3) != 0
+    if use_from:
+        if rng.below(3) == 0:
+            b.new("d")            # raw destination
+        else:
+            b.merge("d", ["r"])   # encoded destination with its own bit count
+        for _ in range(rng.below(6)):
+            v = rng.pick(pool)
+            b.push("d", v, b.form_for(v))
+        if len(b.h["d"].vals) != len(b.h["s"].vals):
+            b.s.nontrivial = True
+        b.raw("clone_from d s", ("eq", "ok"), shape="clone_from")
+        b.h["d"].vals = list(b.h["s"].vals)
+    else:
+        b.clone("d", "s")
+        b.s.nontrivial = True
+    b.readall("d", sig="clone-reads-differ@" + b.entry)
+    for _ in range(1 + rng.below(5)):
+        v = rng.pick(pool)
+        f = b.form_for(v)
+        ks, ns = b.push("s", v, f)
+        kd, nd = b.push("d", v, f)
+        b.s.lines[nd].exp = ("same", ns)
+        b.s.lines[nd].sig = "clone-answers-differently@" + b.entry
+        b.read("d", kd, sig="clone-reads-differ@" + b.entry)
+    for _ in range(1 + rng.below(3)):
+        v = rng.pick(pool)
+        b.push("s", v, b.form_for(v))
+    b.readall("s", sig="clone-not-independent@" + b.entry)
+    b.readall("d", sig="clone-not-independent@" + b.entry)
+    return b.s
+
+
 def generate(seed, tier):
     rng = Rng(seed * 37 + 9)
     per = {"quick": 8, "thorough": 100, "search": 40}[tier]
@@ -66,4 +112,7 @@ def generate(seed, tier):
         for st in cat["stacks"]:
             for i in range(max(1, per // 3)):
                 out.append(one(cat, rng.fork(), st))
+        if cat["caps"]["coded"]:
+            for i in range(per * 2):
+                out.append(coded_one(cat, rng.fork()))
     return out
